@@ -8,7 +8,9 @@
     target -> level -> bool as the current collector's filter; [r] over every record (5 levels, arbitrary byte
     strings, file/line/module present or absent); [en] over the three entry points (the logger called directly,
     through `log!` with any `log::max_level()`, `format_trace`); [ops] over every history of events, span
-    lifecycle steps and (un)installs of any length, with arbitrary field lists. *)
+    lifecycle steps and (un)installs of any length, with arbitrary field lists; [h] over every history of machine
+    steps: any thread entering `set_default` / `DefaultGuard::drop` / `set_global_default`, any thread performing
+    its next atomic action, any thread running an event / span step — all interleavings, any number of threads. *)
 From TV Require Import Levels.Model Levels.Proofs LogBridge.Model LogBridge.Proofs.
 Local Open Scope N_scope.
 
@@ -90,6 +92,132 @@ Theorem C18_level_bijection :
   (forall l, as_log_level l = Some (level_to_log l)).
 Proof. exact level_bijection. Qed.
 Print Assumptions C18_level_bijection.
+
+(** ** The flag on every thread (tracing-core/src/dispatch.rs, action lists generated from the source) *)
+
+(** Over all histories of calls and single atomic actions of any threads: `has_been_set()` never goes back to false. *)
+Theorem C18_exists_never_resets_mt : forall cfg h1 h2,
+  has_been_set (m_regs (fst (mrun cfg minit h1))) = true ->
+  has_been_set (m_regs (fst (mrun cfg minit (h1 ++ h2)))) = true.
+Proof. exact exists_never_resets_mt. Qed.
+Print Assumptions C18_exists_never_resets_mt.
+
+(** Once `set_default` or a successful `set_global_default` has returned on ANY thread, the flag is set. *)
+Theorem C18_installed_sets_flag : forall cfg h,
+  m_installed (fst (mrun cfg minit h)) = true -> has_been_set (m_regs (fst (mrun cfg minit h))) = true.
+Proof. exact installed_sets_flag. Qed.
+Print Assumptions C18_installed_sets_flag.
+
+(** ... and from then on no thread emits a log record, whatever any thread does afterwards (guards dropped, more
+    installs, half-finished calls). *)
+Theorem C18_reverse_after_mt : forall cfg h1 h2, c_always cfg = false ->
+  m_installed (fst (mrun cfg minit h1)) = true ->
+  exists o1, snd (mrun cfg minit (h1 ++ h2)) = o1 ++ map (fun _ => []) h2 /\ List.length o1 = List.length h1 /\
+             has_been_set (m_regs (fst (mrun cfg minit (h1 ++ h2)))) = true.
+Proof. exact reverse_after_mt. Qed.
+Print Assumptions C18_reverse_after_mt.
+
+(** While no thread has entered an installing function, every event and span lifecycle step of every thread emits
+    exactly its record ([mop_spec] = [step_spec] on logging steps). *)
+Theorem C18_reverse_before_mt : forall cfg h s, accepting cfg -> quiet s -> no_install h ->
+  Forall2 mop_spec h (snd (mrun cfg s h)) /\ has_been_set (m_regs (fst (mrun cfg s h))) = false.
+Proof. exact reverse_before_mt. Qed.
+Print Assumptions C18_reverse_before_mt.
+
+Theorem C18_reverse_always_mt : forall cfg h s, accepting cfg -> c_always cfg = true ->
+  Forall2 mop_spec h (snd (mrun cfg s h)).
+Proof. exact reverse_always_mt. Qed.
+Print Assumptions C18_reverse_always_mt.
+
+(** In every state, under every configuration: a machine step emits at most one record; a logging step exactly one
+    iff its gates are open for the value `has_been_set()` has at that moment. *)
+Theorem C18_reverse_step_count_mt : forall cfg s o,
+  List.length (snd (mstep cfg s o)) =
+    match o with MLog _ op => if step_gates cfg (has_been_set (m_regs s)) op then 1%nat else 0%nat | _ => 0%nat end.
+Proof. exact mstep_count. Qed.
+Print Assumptions C18_reverse_step_count_mt.
+
+(** ** The other public entries *)
+
+(** `<LogTracer as log::Log>::enabled`: true iff gate, no ignored prefix, and the collector enables the record's own
+    (target, level); it never produces an event and asks only about the record. *)
+Theorem C18_enabled_iff : forall st r, exists o,
+  tracer_enabled st r = Some (true, o) /\ enabled_passes st r \/ tracer_enabled st r = Some (false, o) /\ ~ enabled_passes st r.
+Proof. exact enabled_iff. Qed.
+Print Assumptions C18_enabled_iff.
+
+(** `log::Metadata::as_trace` / `log::Record::as_trace`: name "log record", the record's own target and level, the
+    location only from a `Record`; `Metadata::as_log`: converted level, own target; the builder's max level. *)
+Theorem C18_conversions :
+  (forall r, (exists m, as_trace_meta gen_as_trace_metadata r = Some m /\ asks_record r false m) /\
+             (exists m, as_trace_meta gen_as_trace_record r = Some m /\ asks_record r true m)) /\
+  (forall m, as_log_meta m = Some (m_level m, m_target m)) /\
+  (forall w, builder_log_max w = Some (match w with Some f => f | None => Some Trace end)).
+Proof. exact (conj as_trace_public (conj as_log_meta_ok builder_max_ok)). Qed.
+Print Assumptions C18_conversions.
+
+(** Normalisation without the `u32` hypothesis on the line. *)
+Theorem C18_normalized_any_line : forall st en r o e, bridge st en r = Some o -> In e (events_of o) ->
+  message_of e = Some (r_msg r) /\ normalize e = Some (Some (normal_of r)).
+Proof. exact normalized_any_line. Qed.
+Print Assumptions C18_normalized_any_line.
+
+(** ** What the translator read, pinned to the values the theorems above are about *)
+Theorem C18_source_flag :
+  gen_has_been_set = HLoad AExists /\
+  gen_fn_set_default = [ActLocal; ActStore AExists 1; ActFetchAdd AScopedCount 1] /\
+  gen_fn_guard_drop = [ActFetchSub AScopedCount 1; ActLocal] /\
+  gen_fn_set_global = [ActCas AGlobalInit 0 1; ActLocal; ActStore AGlobalInit 2; ActStore AExists 1].
+Proof. exact source_flag. Qed.
+Print Assumptions C18_source_flag.
+
+Theorem C18_source_tracer :
+  gen_tracer_gate = RGt /\ gen_tracer_ignore_test = MStartsWith /\ gen_tracer_asks_about_record = true /\
+  gen_dispatch_checks_enabled = true /\
+  gen_as_trace_metadata = (log_record_name, (false, false, false)) /\
+  gen_as_trace_record = (log_record_name, (true, true, true)) /\
+  gen_builder_default_max = Some Trace /\ gen_builder_init_sets_max = true /\ gen_as_log_metadata = (true, true).
+Proof. exact source_tracer. Qed.
+Print Assumptions C18_source_tracer.
+
+Theorem C18_source_event :
+  gen_cs_name = log_event_name /\ gen_cs_target = log_target /\
+  gen_field_names = [MESSAGE; LOG_TARGET_F; LOG_MODULE_F; LOG_FILE_F; LOG_LINE_F] /\
+  gen_fields_new = [("message", MESSAGE); ("target", LOG_TARGET_F); ("module", LOG_MODULE_F); ("file", LOG_FILE_F); ("line", LOG_LINE_F)]%string /\
+  gen_dispatch_values = [("message", "args"); ("target", "target"); ("module", "module_path"); ("file", "file"); ("line", "line")]%string /\
+  (forall l, exists cs fields meta,
+     assoc_lv l gen_level_to_cs = Some (cs, fields) /\ assoc_lv l gen_loglevel_to_cs = Some (cs, fields, meta) /\
+     assoc_str cs gen_log_cs = Some (l, meta) /\ assoc_str fields gen_fields_static = Some cs) /\
+  (forall l1 l2 c1 c2, assoc_lv l1 gen_level_to_cs = Some c1 -> assoc_lv l2 gen_level_to_cs = Some c2 -> fst c1 = fst c2 -> l1 = l2).
+Proof. exact source_event. Qed.
+Print Assumptions C18_source_event.
+
+Theorem C18_source_normalize :
+  gen_norm_name = log_event_name /\ gen_norm_default_target = log_target /\
+  gen_norm_slots = ("file", "line", "module_path")%string /\ gen_norm_fields = [MESSAGE] /\
+  gen_visit_str = [("file", "file"); ("target", "target"); ("module", "module_path")]%string /\
+  gen_visit_u64 = [("line", "line")]%string.
+Proof. exact source_normalize. Qed.
+Print Assumptions C18_source_normalize.
+
+Theorem C18_source_reverse :
+  gen_iflog_checks_exists = true /\ gen_iflog_always_checks_exists = false /\
+  (forall l, level_to_log l = l) /\
+  gen_lifecycle_target = lifecycle_target /\ gen_activity_target = activity_target /\
+  gen_span_enter = (Trace, activity_target, Trace, [s_enter; s_semi]) /\
+  gen_span_exit = (Trace, activity_target, Trace, [s_exit; s_semi]) /\
+  gen_span_drop = (Trace, lifecycle_target, Trace, [s_close; s_semi]) /\
+  gen_span_new = (lifecycle_target, [s_plusplus; s_semi; []], false) /\
+  gen_span_record = (lifecycle_target, [[]; s_semi; []], false) /\
+  gen_span_id_fmt = [[]; s_span_eq; []] /\
+  gen_span_log_max_on_span_level = true /\
+  gen_span_log_builder = [("module_path", "module_path"); ("file", "file"); ("line", "line")]%string /\
+  gen_macro_log_builder = [("file", "file"); ("module_path", "module_path"); ("line", "line")]%string /\
+  gen_follows_from_logs = false /\
+  gen_lvs_message = [[]; []] /\ gen_lvs_first = [[]; EQ; []] /\ gen_lvs_rest = [[32]; EQ; []] /\
+  gen_lvs_message_name = MESSAGE.
+Proof. exact source_reverse. Qed.
+Print Assumptions C18_source_reverse.
 
 Theorem C18_translator_recognised_everything : gen_lb_unrecognised = [].
 Proof. exact nothing_unrecognised. Qed.
